@@ -146,3 +146,41 @@ PLAN["C10"] = dict(
         dict(name="pop without default", file=SORT, old='index_dict.pop("unknown", None)', new='index_dict.pop("unknown")', expect="sort#passes"),
     ],
 )
+
+PLAN["C03"] = dict(
+    level="proof",
+    functions=[(INDEX, "run#index-loop"), (INDEX, "convert_coord#filter"), (UTILS, "search_intervals")],
+    explanation="The indexing loop of index.run against the abstract reader contract, for files of any length: ghost witnesses make both "
+                "directions explicit without existentials: (A) for every record j and every node p it traverses (convert_coord(record) for "
+                "stable GAFs, the names of the path column otherwise), the entry keyed (id, SN, SO, SO+LN) of that node lists off(j); (B) every "
+                "offset listed under a key is off(j) of a record j that traverses that key's node; no empty entry; the offset is the tell() taken "
+                "BEFORE the readline() that returned the record. For stable records the set of traversed nodes is convert_coord's: its 3-case "
+                "filter is proved equivalent to interval overlap and search_intervals returns a window containing every overlapping segment "
+                "(never (-1,-1), in bounds, terminating); convert_coord's loop structure and the seek/pickle round trip on real plain/BGZF files "
+                "are covered by the bounded stand-in.",
+    trusted_base=["reader contract (tell/readline/seek) for text files and pysam BGZFile: assumed, exercised by the bounded stand-in",
+                  "re.split('>|<', path)[1:] = node names of the path; line.rstrip().split('\\t') = fields (assumed)",
+                  "convert_coord loop structure (outside the overlap filter and search_intervals): BOUNDED stand-in only",
+                  "definitional extensions K(j,p) / NT(j) name the key / number of traversed nodes of record j"],
+    mutations=[
+        dict(name="tell() after readline()", file=INDEX, old="        offset = gaf_file.tell()\n        mapping = gaf_file.readline()", new="        mapping = gaf_file.readline()\n        offset = gaf_file.tell()", expect="run#index-loop", functions=[(INDEX, "run#index-loop")]),
+        dict(name="drop first node of the path", file=INDEX, old='alignment = list(re.split(">|<", val[5]))[1:]', new='alignment = list(re.split(">|<", val[5]))[2:]', expect="run#index-loop", functions=[(INDEX, "run#index-loop")], quick=False),
+        dict(name="filter case 1 <= -> <", file=INDEX, old='                <= int(query_start)\n                < int(node.tags["SO"][1]) + int(node.tags["LN"][1])', new='                < int(query_start)\n                < int(node.tags["SO"][1]) + int(node.tags["LN"][1])', expect="filter-iff-overlap", functions=[(INDEX, "convert_coord#filter")]),
+    ],
+)
+
+PLAN["C04"] = dict(
+    level="proof",
+    functions=[(VIEW, "run#select-offsets")],
+    explanation="Selection fragment of view.run (--node mode), given an index with C03's postcondition (one key per node id, no empty entry): the offset "
+                "list is strictly increasing (so each selected record once, in file order, offsets being strictly increasing in the file), its elements "
+                "are exactly the offsets listed for the named nodes that have an index entry, a node without entry contributes nothing and raises "
+                "nothing, and CommandLineError is raised only when no named node has an entry. Rendering of the selected records (Alignment.__str__ / "
+                "converters), equality with convert-then-select and the whole-file branch are covered by the bounded stand-in; tag verbatim-ness is C16.",
+    trusted_base=["sorted(set) / sorted(list, key=) / dict iteration contracts (assumed)", "pickle.load returns the dict index.run dumped (assumed)",
+                  "output loops (read_line + print) and --format composition: BOUNDED stand-in only"],
+    mutations=[
+        dict(name="unaligned-node guard removed", file=VIEW, old="            if nd in ind_dict:\n                offsets.update(ind[ind_dict[nd]])", new="            offsets.update(ind[ind_dict[nd]])", expect="run#select-offsets"),
+        dict(name="first named node skipped", file=VIEW, old="        for nd in nodes:\n            # extracting", new="        for nd in nodes[1:]:\n            # extracting", expect="run#select-offsets", quick=False),
+    ],
+)
